@@ -201,14 +201,14 @@ func positions(root *cbormut.Node) []pos {
 
 // Structural operators of this package (every result is well-formed CBOR).
 const (
-	opNull       = "null"            // value := null
-	opUndef      = "undefined"       // value := undefined
-	opDropKey    = "dropkey"         // remove the map entry (a missing field)
-	opEmptyArr   = "emptyarray"      // value := []
-	opEmptyMap   = "emptymap"        // value := {}
-	opZeroInt    = "int0"            // value := 0
-	opEmptyBstr  = "emptybytes"      // value := h''
-	opSelfDesc   = "selfdescribed"   // value := 55799(value)  (the tag every CBOR decoder strips)
+	opNull       = "null"               // value := null
+	opUndef      = "undefined"          // value := undefined
+	opDropKey    = "dropkey"            // remove the map entry (a missing field)
+	opEmptyArr   = "emptyarray"         // value := []
+	opEmptyMap   = "emptymap"           // value := {}
+	opZeroInt    = "int0"               // value := 0
+	opEmptyBstr  = "emptybytes"         // value := h''
+	opSelfDesc   = "selfdescribed"      // value := 55799(value)  (the tag every CBOR decoder strips)
 	opSelfDescNu = "selfdescribed-null" // value := 55799(null)
 	opZeroBytes  = "zerobytes"          // byte string := all zero (same length)
 	opTruncArr   = "truncate-array"     // array loses its last element
